@@ -18,6 +18,10 @@ impl<'a> Paseto<'a, V3, Public> {
         implicit_assertion: (impl Into<Option<ImplicitAssertion<'a>>> + Copy),
     ) -> Result<String, PasetoError> {
         let decoded_payload = Self::parse_raw_token(signature, footer, &V3::default(), &Public::default())?;
+        //the decoded payload must at least hold the signature
+        if decoded_payload.len() < 96 {
+            return Err(PasetoError::IncorrectSize);
+        }
 
         //compress the key
         let compressed_public_key = PublicKey::from_sec1_bytes(public_key.as_ref())
